@@ -3,11 +3,17 @@
 set -e
 cd "$(dirname "$0")"
 export CARGO_NET_OFFLINE=true
-mkdir -p work/tmp work/replays evidence
+mkdir -p work/tmp work/replays work/audit evidence
 [ -f harness/Cargo.lock ] || cp /repo/Cargo.lock harness/Cargo.lock
-(cd harness && cargo build --offline 2>&1 | tail -3 && cargo build --release --offline 2>&1 | tail -3)
+[ -f harness2/Cargo.lock ] || cp /repo/Cargo.lock harness2/Cargo.lock
+(cd harness && cargo build --offline 2>&1 | tail -2 && cargo build --release --offline 2>&1 | tail -2)
+(cd harness2 && CARGO_TARGET_DIR=target-plain cargo build --offline 2>&1 | tail -1 \
+  && CARGO_TARGET_DIR=target-serde cargo build --offline --features serde 2>&1 | tail -1 \
+  && RUSTFLAGS="--cfg gosyn_verif" CARGO_TARGET_DIR=target-hooks cargo build --offline 2>&1 | tail -1 \
+  && RUSTFLAGS="--cfg gosyn_verif" CARGO_TARGET_DIR=target-serde-hooks cargo build --offline --features serde 2>&1 | tail -1)
 python3 tools/gen_unicode.py harness/target/debug/harness lean/Gosyn/Gen/Unicode.lean
 python3 tools/extract.py /repo lean/Gosyn/Gen/Tables.lean
 python3 tools/gen_ast.py /repo lean/Gosyn/Gen
-(cd lean && timeout 3000 lake build Gosyn driver 2>&1 | tail -5)
+MODS=$(python3 -c "import json;print(' '.join(sorted({m for v in json.load(open('obligations.json')).values() for m in v['modules']})))")
+(cd lean && timeout 3400 lake build Gosyn driver $MODS 2>&1 | tail -3)
 echo "setup done"
